@@ -328,7 +328,7 @@ def run_lifecycle_mc(workdir, tier):
     out = {"instances": [], "distinct": 0, "generated": 0, "scripts": []}
     def cfg(defects, export, props=True, maxreq=4, maxatt=3):
         lines = ["SPECIFICATION Spec", "CONSTANTS", "  Defects = {%s}" % ", ".join('"%s"' % d for d in defects), "  MaxRequests = %d" % maxreq, "  MaxAttempts = %d" % maxatt,
-                 "  ExportOn = %s" % ("TRUE" if export else "FALSE"), "  ExportEvery = %d" % (97 if tier == "quick" else 11)]
+                 "  ExportOn = %s" % ("TRUE" if export else "FALSE"), "  ExportEvery = %d" % (7 if tier == "quick" else 2)]
         if export: lines += ["VIEW View", "INVARIANT Export"]
         lines += ["INVARIANT EventStreamWellFormed", "INVARIANT LoopNeverDies"]
         if props and not export: lines += ["PROPERTY StopStops", "PROPERTY StartStarts", "PROPERTY CloseCloses"]
@@ -341,9 +341,10 @@ def run_lifecycle_mc(workdir, tier):
         raise ToolError("ClientLifecycle.tla (repaired behaviour) violates a C12 property: the specification and the code must be re-examined")
     out["instances"].append({"name": "repaired behaviour, safety + liveness", "distinct": main.get("distinct", 0), "generated": main.get("generated", 0), "wall_s": main["wall_s"], "ok": True})
     out["distinct"] += main.get("distinct", 0); out["generated"] += main.get("generated", 0)
-    for defect, expect in (("close-fails-with-queued-disconnect", "LoopNeverDies"), ("stop-waits-for-refused-disconnect", "StopStops"), ("close-waits-for-discarded-disconnect", "CloseCloses")):
+    for defect, expect in (("close-fails-with-queued-disconnect", "LoopNeverDies"), ("stop-waits-for-refused-disconnect", "StopStops"), ("close-waits-for-discarded-disconnect", "CloseCloses"),
+                           ("stale-last-connack", "EventStreamWellFormed")):
         r = run_tlc(os.path.join(workdir, "lc-" + defect[:12]), SPEC, "ClientLifecycle", cfg([defect], False, True, 4, 3), workers=8, timeout=1200)
-        found = (not r["ok"]) and (expect in r["text"])
+        found = (not r["ok"]) and (expect in r["text"] or (expect == "EventStreamWellFormed" and "Invariant" in r["text"]))
         out["instances"].append({"name": "defect switched on: " + defect, "expected_violation": expect, "found": found, "distinct": r.get("distinct", 0), "wall_s": r["wall_s"]})
         if not found:
             raise ToolError("ClientLifecycle.tla no longer exposes the recorded defect '%s' (expected a violation of %s)" % (defect, expect))
@@ -381,7 +382,7 @@ def check_lifecycle(pid, tier, seed):
     build_harness(log)
     known = load_known()
     mc = run_lifecycle_mc(workdir, tier)
-    s1 = sample_evenly(mc["scripts"], 400 if tier == "quick" else 4000)
+    s1 = sample_evenly(mc["scripts"], 4000 if tier == "quick" else 40000)
     scripts = LIFECYCLE_REGRESSIONS + s1
     trace, sp, stats = client_run(scripts, workdir, "tokio")
     verdict, tlc = trace_check(trace, [pid], os.path.join(workdir, "tc"))
